@@ -51,6 +51,7 @@ func init() {
 			{ID: "C17.R5", Floor: 10, Doc: "Session.Close sequence and Closed() checks at the query entry points", Run: c17r5},
 			{ID: "C17.R6", Floor: 3, Doc: "stop handshakes pair (bare send on quit vs. returns of the receiving loop)", Run: c06r8},
 			{ID: "C17.R7", Floor: 40, Doc: "guarded-field tables: Session, queryMetrics, routingKeyInfoLRU, debouncers, errorBroadcaster", Run: func(p *Program, r *Report) { checkGuardedFields(p, r, sessionGuards) }},
+			{ID: "C17.R8", Floor: 3, Doc: "stoppable services: work is accepted (a listener registered, a timer armed) only after testing the stopped flag under the same lock, and the stopping side releases what was registered", Run: c17r8},
 		},
 	})
 }
@@ -600,3 +601,96 @@ func exprStrNode(n ast.Node) string {
 }
 
 var _ = types.Typ
+
+// c17r8: refreshDebouncer is stopped by Session.Close. A listener registered after the flusher goroutine has
+// gone is never answered, so (a) every method that registers a listener or arms the timer must test `stopped`
+// under d.mu first, and (b) every exit of the flusher releases the listeners registered so far (broadcaster
+// stopped under d.mu) - otherwise a caller of refreshNow (Session.refreshRing from a control connection
+// reconnect) blocks forever after Close.
+func c17r8(p *Program, r *Report) {
+	for _, name := range []string{"(*refreshDebouncer).refreshNow", "(*refreshDebouncer).debounce"} {
+		fi := r.NeedFunc(name)
+		if fi == nil {
+			continue
+		}
+		g := p.GraphOf(fi)
+		info := g.Info
+		facts := g.GuardFacts()
+		locks := g.Lockset()
+		n := 0
+		inspectNoLit(fi.Decl.Body, func(x ast.Node) bool {
+			var what string
+			switch s := x.(type) {
+			case *ast.AssignStmt:
+				for i, l := range s.Lhs {
+					if p.isField(info, l, "refreshDebouncer", "broadcaster") && i < len(s.Rhs) && !isNil(info, s.Rhs[i]) {
+						what = "registers a broadcaster"
+					}
+				}
+			case *ast.CallExpr:
+				if calleeName(info, s) == "time.(*Timer).Reset" {
+					what = "arms the timer"
+				}
+				if calleeName(info, s) == "(*errorBroadcaster).newListener" {
+					what = "registers a listener"
+				}
+			}
+			if what == "" {
+				return true
+			}
+			n++
+			stmt := p.stmtOf(x, fi)
+			f, _ := facts.Before(stmt)
+			ls, _ := locks.Before(stmt)
+			v, known := f.m["d.stopped"]
+			r.Check(known && !v && heldAny(ls, "d.mu"), x, name+" "+what+" only while not stopped", "d.stopped tested false under d.mu",
+				name+" "+what+" without having tested d.stopped under d.mu: after stop() (Session.Close) nobody runs the refresh or stops the broadcaster, so the caller waits forever on the returned channel")
+			return true
+		})
+		if n == 0 {
+			r.Unresolved("%s registers nothing", name)
+		}
+	}
+	if fi := r.NeedFunc("(*refreshDebouncer).flusher"); fi != nil {
+		// every return of the flusher is preceded by stopping the broadcaster (directly or through a helper)
+		g := p.GraphOf(fi)
+		info := g.Info
+		stops := func(n ast.Node) bool {
+			for _, c := range callsIn(n) {
+				name := calleeName(info, c)
+				if name == "(*errorBroadcaster).stop" {
+					return true
+				}
+				if fn := calleeOf(info, c); fn != nil {
+					if callee := p.FuncOf(fn); callee != nil && callee.Decl.Body != nil && callee != fi {
+						for _, cc := range callsIn(callee.Decl.Body) {
+							if calleeName(callee.Pkg.TypesInfo, cc) == "(*errorBroadcaster).stop" {
+								return true
+							}
+						}
+					}
+				}
+			}
+			return false
+		}
+		ef := g.Events(func(st Step) []string {
+			if st.Kind == StNode && stops(st.Node) {
+				return []string{"stopBroadcaster"}
+			}
+			return nil
+		})
+		n := 0
+		for _, e := range g.Exits() {
+			if e.Kind == ExitPanic {
+				continue
+			}
+			n++
+			s, _ := ef.ExitState(e)
+			r.Check(s.Must["stopBroadcaster"], e.Node, "(*refreshDebouncer).flusher exit "+exitDesc(p, e)+" releases the registered listeners", "broadcaster stopped before the goroutine ends",
+				"the flusher goroutine ends without stopping the current broadcaster: listeners registered just before the stop are never answered")
+		}
+		if n == 0 {
+			r.Unresolved("flusher has no exit")
+		}
+	}
+}
